@@ -170,7 +170,7 @@ fn load_relevant_coins<C: ContentAddrStore>(
 
     // add the ones created in this batch
     for tx in txx {
-        if !tx.is_well_formed() {
+        if !tx.is_well_formed() || outputs_overflow(tx) {
             return Err(StateError::MalformedTx);
         }
 
@@ -194,6 +194,22 @@ fn load_relevant_coins<C: ContentAddrStore>(
     }
 
     Ok(accum)
+}
+
+/// Whether the outputs of one denomination, plus the fee for MEL, add up to more than a u128 can hold.
+/// `Transaction::total_outputs` adds them unchecked: 255 outputs of 2^120 and a fee of 2^120 wrap around to 0 (or panic,
+/// with overflow checks), which then "balances" against an input worth nothing.
+fn outputs_overflow(tx: &Transaction) -> bool {
+    let mut totals: FxHashMap<Denom, u128> = FxHashMap::default();
+    totals.insert(Denom::Mel, tx.fee.0);
+    for output in tx.outputs.iter() {
+        let total = totals.entry(output.denom).or_insert(0);
+        match total.checked_add(output.value.0) {
+            Some(sum) => *total = sum,
+            None => return true,
+        }
+    }
+    false
 }
 
 fn extract_input_coins<C: ContentAddrStore>(
